@@ -2,13 +2,30 @@
    Theorems about Model/Hilbert.v (the loop-for-loop transcription of
    spatialpandas/spatialindex/hilbert_curve.py).
    [hilbert_guard p n] = 1 <= p, 1 <= n, n*p <= 62 (the int64 guard).
-   `_upto` = proved for every (p, n) of Spec.Curve.C07_scope (n=1: p<=12, n=2: p<=7,
-   n=3: p<=4, n=4: p<=3) by evaluation inside the kernel; the general-p statement of
-   those two (adjacency, identity with the classical curve) is open: see
-   C07_adjacent_partial below. *)
+   Proved for EVERY order p and EVERY dimension n (no bound other than the guard):
+     * round trip (both ways), ranges, bijection, refinement, endpoints;
+     * C07_adjacent: consecutive distances are grid neighbours (differ by one in exactly one
+       coordinate).  Bit-level proof in Proofs/HilbertClassicalN.v: a step of the undo-excess
+       loop at level k acts on every bit vector below k as a signed coordinate permutation
+       (flip coordinate 0 / exchange coordinates 0 and i); the Gray-decoded transposes of h and
+       h+1 are the Gray codes of h and h+1 and differ in one bit (level J, coordinate a0);
+       level J sends the lower bit vectors of the two runs to vectors that agree except at a0,
+       where each holds the complement of its own bit J ([glue], symbolic in n); the higher
+       levels, common to both runs, preserve this configuration; such a coordinate holds two
+       numbers that differ by one.
+   Proved for EVERY order p:
+     * n = 2:   the mapping IS the classical Hilbert curve [hilbert_ref] (C07_classical; hence
+                also C07_adjacent_n2) -- Proofs/HilbertClassical.v: each level applies one of
+                four symmetries of the square to all lower bit pairs, and this top-down recursion
+                coincides with the quadrant recursion of the classical curve up to the carry of
+                the Gray code;
+     * n = 1:   the mapping is the identity (C07_identity_n1).
+   The `_upto` theorems (kernel evaluation over Spec.Curve.C07_scope) and C07_adjacent_partial
+   are kept; they are now special cases of the above. *)
 From Coq Require Import NArith List.
 From SP Require Import Model.Hilbert Spec.Curve Proofs.HilbertUpto Proofs.HilbertRoundtrip
-     Proofs.HilbertEnds Proofs.HilbertRefine Proofs.HilbertCurveRef.
+     Proofs.HilbertEnds Proofs.HilbertRefine Proofs.HilbertCurveRef Proofs.HilbertClassical
+     Proofs.HilbertClassicalN.
 Import ListNotations.
 Local Open Scope N_scope.
 
@@ -51,6 +68,20 @@ Theorem C07_endpoints : forall p n, hilbert_guard p n ->
 Proof. exact (fun p n H => conj (cfd_origin p n H) (cfd_far_end p n H)). Qed.
 Print Assumptions C07_endpoints.
 
+(* consecutive distances are grid neighbours: they differ by exactly one in exactly one
+   coordinate (every order p, every dimension n) *)
+Theorem C07_adjacent : forall p n h, hilbert_guard p n -> distance p n (h + 1) ->
+    neighbours (coordinate_from_distance p n h) (coordinate_from_distance p n (h + 1)).
+Proof. exact adjacent_all. Qed.
+Print Assumptions C07_adjacent.
+
+(* the same from the side of distance_from_coordinate (the function hilbert_distance uses):
+   two cells with consecutive distances are grid neighbours *)
+Theorem C07_adjacent_cells : forall p n c c', hilbert_guard p n -> cell p n c -> cell p n c' ->
+    distance_from_coordinate p c' = distance_from_coordinate p c + 1 -> neighbours c c'.
+Proof. exact adjacent_cells. Qed.
+Print Assumptions C07_adjacent_cells.
+
 (* the vectorised entry points are the scalar ones applied row by row *)
 Theorem C07_vectorised : forall p n hs cs,
     coordinates_from_distances p n hs = map (coordinate_from_distance p n) hs /\
@@ -87,10 +118,39 @@ Proof.
 Qed.
 Print Assumptions C07_classical_curve.
 
-(* PARTIAL (extra hypothesis): adjacency at an arbitrary order p, n = 2, follows from the
-   identity with the classical curve at that order.  That identity is a theorem for p <= 7
-   (C07_classical_upto) and is checked on the real code on samples for every p <= 31; for
-   general p, and for n <> 2, adjacency is NOT proved. *)
+(* ---- n = 2, EVERY order p ----------------------------------------------- *)
+(* the mapping is the classical Hilbert curve (quadrant recursion of Spec/Curve.v) *)
+Theorem C07_classical : forall p h, hilbert_guard p 2 -> distance p 2 h ->
+    coordinate_from_distance p 2 h = [fst (hilbert_ref p h); snd (hilbert_ref p h)].
+Proof. exact classical_all. Qed.
+Print Assumptions C07_classical.
+
+(* ... and distance_from_coordinate inverts it *)
+Theorem C07_classical_inverse : forall p h, hilbert_guard p 2 -> distance p 2 h ->
+    distance_from_coordinate p [fst (hilbert_ref p h); snd (hilbert_ref p h)] = h.
+Proof. exact classical_inverse. Qed.
+Print Assumptions C07_classical_inverse.
+
+(* consecutive distances are grid neighbours *)
+Theorem C07_adjacent_n2 : forall p h, hilbert_guard p 2 -> distance p 2 (h + 1) ->
+    neighbours (coordinate_from_distance p 2 h) (coordinate_from_distance p 2 (h + 1)).
+Proof. exact adjacent_n2. Qed.
+Print Assumptions C07_adjacent_n2.
+
+(* ---- n = 1, EVERY order p: the mapping is the identity ------------------- *)
+Theorem C07_identity_n1 : forall p h, hilbert_guard p 1 -> distance p 1 h ->
+    coordinate_from_distance p 1 h = [h].
+Proof. exact identity_n1. Qed.
+Print Assumptions C07_identity_n1.
+
+Theorem C07_adjacent_n1 : forall p h, hilbert_guard p 1 -> distance p 1 (h + 1) ->
+    neighbours (coordinate_from_distance p 1 h) (coordinate_from_distance p 1 (h + 1)).
+Proof. exact adjacent_n1. Qed.
+Print Assumptions C07_adjacent_n1.
+
+(* (kept; superseded by C07_classical + C07_adjacent_n2, which discharge its hypothesis for
+   every p) adjacency at an arbitrary order p, n = 2, follows from the identity with the
+   classical curve at that order. *)
 Theorem C07_adjacent_partial : forall p,
     (forall h, distance p 2 h ->
                coordinate_from_distance p 2 h = [fst (hilbert_ref p h); snd (hilbert_ref p h)]) ->
@@ -108,3 +168,14 @@ Example C07_ex1 : coordinate_from_distance 3 2 37 = [4; 7] /\ distance_from_coor
 Proof. vm_compute. split; reflexivity. Qed.
 Example C07_ex2 : coordinate_from_distance 31 2 (2 ^ 62 - 1) = [2 ^ 31 - 1; 0].
 Proof. vm_compute. reflexivity. Qed.
+(* instances of the every-p theorems far outside the kernel-evaluated scope *)
+Example C07_ex3 : neighbours (coordinate_from_distance 20 3 (2 ^ 40 - 1))
+                             (coordinate_from_distance 20 3 (2 ^ 40 - 1 + 1)).
+Proof.
+  apply C07_adjacent.
+  - unfold hilbert_guard. repeat split; repeat constructor.
+  - vm_compute. reflexivity.
+Qed.
+Example C07_ex4 : coordinate_from_distance 31 2 (2 ^ 61) = [2 ^ 30; 2 ^ 30]
+                  /\ hilbert_ref 31 (2 ^ 61) = (2 ^ 30, 2 ^ 30).
+Proof. vm_compute. split; reflexivity. Qed.
